@@ -281,16 +281,19 @@ def grad_cholesky(L, A):
     # scipy's dtrtrs wrapper, solve_triangular, doesn't broadcast along leading
     # dimensions, so we just call a generic LU solve instead of directly using
     # backsubstitution (also, we factor twice...)
-    solve_trans = lambda a, b: solve(T(a), b)
+    # For complex (Hermitian) input transposes are conjugate transposes and the
+    # note's "bar" quantities are the conjugates of autograd's cotangents.
+    H = lambda x: anp.conj(T(x))
+    solve_trans = lambda a, b: solve(H(a), b)
     phi = lambda X: anp.tril(X) / (1.0 + anp.eye(X.shape[-1]))
 
     def conjugate_solve(L, X):
-        # X -> L^{-T} X L^{-1}
-        return solve_trans(L, T(solve_trans(L, T(X))))
+        # X -> L^{-H} X L^{-1}
+        return solve_trans(L, H(solve_trans(L, H(X))))
 
     def vjp(g):
-        S = conjugate_solve(L, phi(anp.einsum("...ki,...kj->...ij", L, g)))
-        return (S + T(S)) / 2.0
+        S = conjugate_solve(L, phi(anp.einsum("...ki,...kj->...ij", anp.conj(L), anp.conj(g))))
+        return anp.conj(S + H(S)) / 2.0
 
     return vjp
 
